@@ -10,6 +10,24 @@ int main(int argc, char** argv)
 {
   if (argc < 3) return 2;
   GvInputs in(argv[1]);
+  std::string check = argv[2];
+  if (check.find("rad2dms") == 0 || check.find("dms2rad") == 0) {
+    if (!in.has("w_x")) { std::printf("no witness values in the trace\n"); return 2; }
+    double x = in.num("w_x", 0);
+    int bad = 0;
+    if (check.find("rad2dms") == 0) {
+      double r = GNU_gama::rad2dms(x);            // packed dd.mmss
+      int d = (int)r;
+      std::printf("rad2dms(%.17g) = %.17g  degrees field %d\n", x, r, d);
+      if (!(r >= 0 && d <= 359)) bad = 1;
+    } else {
+      double r = GNU_gama::dms2rad(x);
+      std::printf("dms2rad(%.17g) = %.17g  (2 pi = %.17g)\n", x, r, 2 * M_PI);
+      if (!(r >= 0 && r < 2 * M_PI)) bad = 1;
+    }
+    std::printf("%s\n", bad ? "POSTCONDITION VIOLATED (angle not normalised to the half-open turn)" : "ok");
+    return bad ? 1 : 0;
+  }
   if (!in.has("w_gon")) { std::printf("no witness values in the trace\n"); return 2; }
   // the text trace shows doubles with 7 significant digits only; the exact witness is rebuilt from the bit pattern
   // when the trace line carries one, otherwise the rounded value and its neighbourhood are tried
